@@ -209,6 +209,9 @@ impl Prop for C16 {
     fn tag(&self) -> u64 {
         16
     }
+    fn isolate_runs(&self) -> bool {
+        false // each worker keeps one long-lived shuttle server thread (pooled coroutine stacks)
+    }
     fn runs(&self, tier: Tier) -> u64 {
         match tier {
             Tier::Quick => GRID * 2 + 1500,
